@@ -87,6 +87,8 @@ var (
 
 const hour = int64(3600)
 
+var worlds int
+
 func initOnce() {
 	if !base.IsZero() {
 		return
@@ -162,6 +164,16 @@ func NewWorld(i, mode int, filename string) (*World, error) {
 // given MACs are captured before the handler is constructed (the constructor consults IsCaptured).
 func NewWorldCaptured(i, mode int, filename string, captured [][]byte, reset bool) (*World, error) {
 	initOnce()
+	// every third world runs with the library's loggers at debug level: every log line of the handler and of the
+	// session is then formatted (output discarded), so a log call that panics (nil record, a field appended after a
+	// truncated one, an over-long name) is a handler panic the oracles see; behaviour must not depend on the level
+	worlds++
+	lvl := fastlog.LevelError
+	if worlds%3 == 0 {
+		lvl = fastlog.LevelDebug
+	}
+	dhcp.Logger.SetLevel(lvl)
+	packet.Logger.SetLevel(lvl)
 	s, conn := session(i)
 	c := &Cfgs[i]
 	if reset {
